@@ -151,3 +151,6 @@ def run(ctx):
     # the SHIPPED PANTR stack (NewtonTRDirection over SteihaugCG inside the model): refinement of the oracle model + whole runs
     from vf.props import PANTRDIR
     PANTRDIR.attach(ctx, extra_oracle=on_run)
+    # PANOC-OCP: whole-loop model + its NaN-candidate stream (an accelerated candidate with a non-finite cost must be dropped, not accepted)
+    from vf.props import PANOCOCP
+    PANOCOCP.attach(ctx, scale=0.25)
